@@ -93,7 +93,24 @@ Walk2(o, k, k0, oh) ==
                     ELSE IF o.final.kind = "failed" /\ o.final.error = out THEN "ok"
                     ELSE "Final:expected-failure-with-the-error"
 
-Judge(o) == IF o.kind = "policy" THEN Walk(o, 1) ELSE IF o.kind = "nested" THEN Walk2(o, 1, 1, <<>>) ELSE JudgeLeak(o)
+(* The execution's own timeout (reported as States.Timeout, internally States.ExecutionTimeout) is unrecoverable: no   *)
+(* Retrier and no Catcher applies, whatever it names.  td / ed: the Task's and the execution's deadlines; c: the       *)
+(* instant at which the engine learns of the timeout (not before it handles the Task's event).                         *)
+JudgeExecTimeout(o) ==
+    LET td == o.entered + o.timeout * 1000
+        ed == o.exect * 1000
+        first == IF td < ed THEN td ELSE ed
+        c == IF o.handled > first THEN o.handled ELSE first
+        r == RetryDecision(Retriers(o), <<"States.ExecutionTimeout">>)
+        k == CatchDecision(Catchers(o), "States.ExecutionTimeout")
+    IN IF c < ed \/ o.entered < 0 THEN "ok"          \* the Task's own timeout comes first: Walk judges those runs
+       ELSE IF r.act # "handover" \/ k.act # "fail" THEN "SPEC:execution-timeout-recoverable"
+       ELSE IF o.final.kind = "caught" \/ o.final.kind = "succeeded" THEN "Catch:execution-timeout-caught"
+       ELSE IF Len(o.attempts) > 1 THEN "Retry:execution-timeout-retried"
+       ELSE IF o.final.kind = "failed" /\ o.final.error = "States.Timeout" THEN "ok"
+       ELSE "Final:expected-failure-with-the-error"
+
+Judge(o) == IF o.kind = "exect" THEN JudgeExecTimeout(o) ELSE IF o.kind = "policy" THEN Walk(o, 1) ELSE IF o.kind = "nested" THEN Walk2(o, 1, 1, <<>>) ELSE JudgeLeak(o)
 
 Known == JsonDeserialize(IOEnv.KNOWN_FINDINGS)
 ActiveK == {Known.findings[j].id : j \in {j \in 1..Len(Known.findings) : Known.findings[j].status = "known"}}
